@@ -424,4 +424,4 @@ CHECKS["C20"] = {
 }
 
 NOT_APPLICABLE = {}
-HOOK_COMMITS = ["eca2adf"]
+HOOK_COMMITS = ["eca2adf", "812334f"]
